@@ -151,6 +151,12 @@ static void COCSdoTransferFinalize(CO_CSDO *csdo)
     uint32_t           code;
 
     if (csdo->State == CO_CSDO_STATE_BUSY) {
+        /* Stop timeout supervision of this transfer */
+        if (csdo->Tfer.Tmr >= 0) {
+            (void)COTmrDelete(&(csdo->Node->Tmr), csdo->Tfer.Tmr);
+            csdo->Tfer.Tmr = -1;
+        }
+
         /* Fetch transfer information */
         idx  = csdo->Tfer.Idx;
         sub  = csdo->Tfer.Sub;
@@ -185,6 +191,8 @@ static void COCSdoTimeout(void *parg)
     CO_CSDO *csdo;
 
     csdo = (CO_CSDO *)parg;
+    /* The one-shot timeout action is gone when this callback runs */
+    csdo->Tfer.Tmr = -1;
     if (csdo->State == CO_CSDO_STATE_BUSY) {
         /* Abort SDO transfer because of timeout */
         COCSdoAbort(csdo, CO_SDO_ERR_TIMEOUT);
